@@ -383,6 +383,22 @@ fn output_predicate_datavalue(
     }
 }
 
+/// Serialises subselectors as comma-separated items of a JSON array.
+/// Subselectors that can not be expressed (and produce no output) are skipped and leave no stray comma.
+fn output_subselectors<'a>(
+    selectors: impl Iterator<Item = &'a Selector>,
+    store: &AnnotationStore,
+    config: &WebAnnoConfig,
+    need_second_pass: &mut bool,
+    second_pass: bool,
+) -> String {
+    let items: Vec<String> = selectors
+        .map(|selector| output_selector(selector, store, config, true, need_second_pass, second_pass))
+        .filter(|item| !item.is_empty())
+        .collect();
+    items.join(",")
+}
+
 fn output_selector(
     selector: &Selector,
     store: &AnnotationStore,
@@ -473,41 +489,35 @@ fn output_selector(
         }
         Selector::CompositeSelector(selectors) => {
             ann_out += "{ \"type\": \"http://www.w3.org/ns/oa#Composite\", \"items\": [";
-            for (i, selector) in selectors.iter().enumerate() {
-                ann_out += &format!(
-                    "{}",
-                    &output_selector(selector, store, config, true, need_second_pass, second_pass)
-                );
-                if i != selectors.len() - 1 {
-                    ann_out += ",";
-                }
-            }
+            ann_out += &output_subselectors(
+                selectors.iter(),
+                store,
+                config,
+                need_second_pass,
+                second_pass,
+            );
             ann_out += " ]}";
         }
         Selector::MultiSelector(selectors) => {
             ann_out += "{ \"type\": \"http://www.w3.org/ns/oa#Independents\", \"items\": [";
-            for (i, selector) in selectors.iter().enumerate() {
-                ann_out += &format!(
-                    "{}",
-                    &output_selector(selector, store, config, true, need_second_pass, second_pass)
-                );
-                if i != selectors.len() - 1 {
-                    ann_out += ",";
-                }
-            }
+            ann_out += &output_subselectors(
+                selectors.iter(),
+                store,
+                config,
+                need_second_pass,
+                second_pass,
+            );
             ann_out += " ]}";
         }
         Selector::DirectionalSelector(selectors) => {
             ann_out += "{ \"type\": \"http://www.w3.org/ns/oa#List\", \"items\": [";
-            for (i, selector) in selectors.iter().enumerate() {
-                ann_out += &format!(
-                    "{}",
-                    &output_selector(selector, store, config, true, need_second_pass, second_pass)
-                );
-                if i != selectors.len() - 1 {
-                    ann_out += ",";
-                }
-            }
+            ann_out += &output_subselectors(
+                selectors.iter(),
+                store,
+                config,
+                need_second_pass,
+                second_pass,
+            );
             ann_out += " ]}";
         }
         Selector::DataKeySelector(..) | Selector::AnnotationDataSelector(..) => {
@@ -520,22 +530,13 @@ fn output_selector(
         Selector::RangedTextSelector { .. } | Selector::RangedAnnotationSelector { .. } => {
             if nested {
                 let subselectors: Vec<_> = selector.iter(store, false).collect();
-                for (i, subselector) in subselectors.iter().enumerate() {
-                    ann_out += &format!(
-                        "{}",
-                        &output_selector(
-                            &subselector,
-                            store,
-                            config,
-                            true,
-                            need_second_pass,
-                            second_pass
-                        )
-                    );
-                    if i != subselectors.len() - 1 {
-                        ann_out += ",";
-                    }
-                }
+                ann_out += &output_subselectors(
+                    subselectors.iter().map(|subselector| subselector.as_ref()),
+                    store,
+                    config,
+                    need_second_pass,
+                    second_pass,
+                );
             } else {
                 unreachable!(
                 "Internal Ranged selectors can not be serialized directly, they can be serialized only when under a complex selector",
